@@ -44,3 +44,26 @@ Qed.
 Example prefix_free_boundary :
   typed_uint TPos 255 ++ [1] <> typed_uint TPos 256 ++ [].
 Proof. vm_compute. discriminate. Qed.
+
+(* the same for whole strings (EncodeBytes / EncodeTextString / EncodeByteString):
+   head + content is uniquely readable whatever follows *)
+Lemma app_eq_len : forall (a b c d : bytes),
+  List.length a = List.length b -> a ++ c = b ++ d -> a = b /\ c = d.
+Proof.
+  induction a as [|x a IH]; intros [|y b] c d L E; cbn in *; try discriminate.
+  - now split.
+  - injection E as -> E. injection L as L. destruct (IH b c d L E) as [-> ->]. now split.
+Qed.
+
+Theorem enc_bytes_of_prefix_free : forall t t' bs bs' r r',
+  major_const t -> major_const t' -> lenN bs < two64 -> lenN bs' < two64 ->
+  enc_bytes_of t bs ++ r = enc_bytes_of t' bs' ++ r' ->
+  t = t' /\ bs = bs' /\ r = r'.
+Proof.
+  intros t t' bs bs' r r' Ht Ht' Hn Hn' E. unfold enc_bytes_of in E.
+  rewrite <- !app_assoc in E.
+  destruct (typed_uint_prefix_free _ _ _ _ _ _ Ht Ht' Hn Hn' E) as (Et & En & Er).
+  split; [exact Et|].
+  apply app_eq_len; [|exact Er].
+  rewrite !lenN_length in En. lia.
+Qed.
